@@ -1,20 +1,21 @@
 ----------------------------- MODULE FqnOracle -----------------------------
 (* Oracle mode of Fqn.tla (C10): JSON cases in; per case the outcome of the   *)
 (* load (targets of the references in textual order, 0 = "Unknown object",    *)
-(* nothing after it) under the documented semantics and under each set of      *)
-(* deviation clauses, and whether the documented outcome satisfies C10.        *)
+(* nothing after it) under the documented semantics and under each deviation   *)
+(* set the case asks for (x.devs: the sets of *listed open* clauses), and      *)
+(* whether the documented outcome satisfies C10.                               *)
 EXTENDS Fqn, Json, IOUtils
 
 ASSUME TLCSet(1, JsonDeserialize(IOEnv.VT_CASES))
 Cases == TLCGet(1)
 
-P == {"FqnWalksParent"}
-R == {"FqnWalksRefs"}
+SetOf(s) == {s[j] : j \in 1..Len(s)}
 
 Answer(x) ==
   LET c == [objs |-> x.objs, refs |-> x.refs] IN
-  [id |-> x.id, doc |-> Expected(c, {}), p |-> Expected(c, P), r |-> Expected(c, R),
-   pr |-> Expected(c, P \cup R), c10 |-> C10Holds(c, {})]
+  [id |-> x.id, doc |-> Expected(c, {}),
+   dev |-> [j \in 1..Len(x.devs) |-> Expected(c, SetOf(x.devs[j]))],
+   c10 |-> C10Holds(c, {})]
 
 VARIABLE i
 Init == i = 0
